@@ -125,7 +125,7 @@ Section Proofs.
     intros Hpos Hc. unfold jsi_normalized, jsa_normalized, jsi, jsa.
     rewrite Cmod_div by (intros H0; apply RtoC_inj in H0; contradiction).
     rewrite Cmod_R. unfold Rdiv. rewrite Rpow_mult_distr.
-    rewrite <- Rinv_pow by (apply Rabs_no_R0; assumption).
+    rewrite pow_inv.
     rewrite <- (pow2_abs (js_jsa_center j)).
     f_equal. rewrite <- jsa_center_is. symmetry. apply jsi_center_is. assumption.
   Qed.
